@@ -7,7 +7,7 @@ C11  M: MC_KeyFile — the operational object refines an ordered map at every re
      B: random histories of up to 60 calls over <= 3 handles recorded and validated by Trace_KeyFile.
 C10  B: query sequences (every getter of every type incl. failing ones, defaults, listings, ext
         getter, path, tags, write, merge as input) with a FULL dump after every call; Trace_KeyFile
-        rejects a query after which any object's listing or full-dump fingerprint moved.
+        rejects a query after which any object's listing or full-dump fingerprint (incl. the answers of all typed getters for every key) moved.
 """
 import hashlib
 import json
@@ -150,7 +150,9 @@ def show_hist(r):
 # --------------------------------------------------------------------------------------
 SECS = [None, "", "A", "[A]", "B", "[B]", "C c"]
 KEYS = ["x", "y", "z", "k4", "k5", "k6", "k7", "k8", "k9", "k10"]
-VALS = ["v", "Yes Please", "TRUE", "0x10", "1e3", "", "42", "-7", "a b  c", "tRuE", "No", "2.5", "0755", "yes", "nOnE", "  \"q r\"", "\"x\"  "]
+VALS = ["v", "Yes Please", "TRUE", "0x10", "1e3", "", "42", "-7", "a b  c", "tRuE", "No", "2.5", "0755", "yes", "nOnE", "  \"q r\"", "\"x\"  ",
+        # texts on which a getter succeeds or fails at the edge of its range (what they leave behind must not matter later)
+        "1e-320", "1e40", "99999999999999999999999", "-1", "4294967296"]
 BOOLW = ["1", "0", "yes", "YES", "no", "No", "true", "TRUE", "false", "fAlSe"]
 
 
@@ -215,7 +217,7 @@ class Hist:
             self.plan.append("write")
             self.script.append("cat %s" % hx(self.root + "/" + name))
             self.plan.append("cat")
-            self.add("dumpx %d" % h, "dumpfp")
+            self.add("dumpt %d" % h, "dumpfp")       # extended dump + the answers of all typed getters for every key
         else:
             self.add("dump %d" % h, lambda ev, h=h: [{"e": "dump", "h": h, "isnull": ev["st"] is None,
                                                        "st": dump_st(ev) or {"groups": [], "ents": []}, "fp": "-"}])
@@ -475,7 +477,7 @@ def check(pid, tier, seed):
         nq = sum(1 for h in hists for l in h.script if l.split()[0] in ("get", "getdef", "keys", "groups", "ext", "path", "tags", "write", "merge"))
         cov = {"states": mc.distinct, "transitions": mc.generated, "traces_validated_against_impl": acc,
                "evaluations": nq, "distinct_nontrivial": sum(1 for h in hists if any(l.startswith("get Bool") or l.startswith("getdef Bool") or l.startswith("get Int") for l in h.script)),
-               "rule": "%d random query sequences (3..30 calls) on parsed and built objects holding mixed-case / non-boolean / numeric / empty / absent values: getters of all 8 types with and without default (incl. failing ones), key and section listings, extended getter, path, tags, econf_writeFile, use as either input of econf_mergeFiles; after EVERY call the object is dumped in full (listing, values as stored, comments, line numbers, value lists, bytes of a fresh write); Trace_KeyFile accepts a query only if listing and full-dump fingerprint are unchanged since the last setter. In the model queries are UNCHANGED objs by construction (KeyFile.tla); %d query calls validated. Merge as a query, systematically: %d pairs of parsed files (every pair of entry lists of length <= 2 over {group-less,A,B} x {x,y} exported by TLC from MC_Merge, first key of the file / of each section without a value): the extended dump of both inputs is identical before and after econf_mergeFiles; + mixed histories (merges with tag-less option objects as base, writes, listings, extended getter) validated against the root specification with the delimiter / comment tags part of every dump. non-trivial = sequence with a Bool or Int getter." % (len(hists), nq, nmerge),
+               "rule": "%d random query sequences (3..30 calls) on parsed and built objects holding mixed-case / non-boolean / numeric / empty / absent values: getters of all 8 types with and without default (incl. failing ones), key and section listings, extended getter, path, tags, econf_writeFile, use as either input of econf_mergeFiles; after EVERY call the object is dumped in full (listing, values as stored, comments, line numbers, value lists, bytes of a fresh write); Trace_KeyFile accepts a query only if listing and full-dump fingerprint (incl. the answers of all typed getters for every key) are unchanged since the last setter. In the model queries are UNCHANGED objs by construction (KeyFile.tla); %d query calls validated. Merge as a query, systematically: %d pairs of parsed files (every pair of entry lists of length <= 2 over {group-less,A,B} x {x,y} exported by TLC from MC_Merge, first key of the file / of each section without a value): the extended dump of both inputs is identical before and after econf_mergeFiles; + mixed histories (merges with tag-less option objects as base, writes, listings, extended getter) validated against the root specification with the delimiter / comment tags part of every dump. non-trivial = sequence with a Bool or Int getter." % (len(hists), nq, nmerge),
                "samples": [hists[0].script[:12]], "exhaustive": False,
                "trusted_base": ["TLC 1.8.0", "gcc ASan/UBSan", "drv.c"]}
     rc = verdict.finish()
